@@ -10,7 +10,7 @@ import os
 import random
 
 from harness.props import c10 as base
-from harness.props.c10 import jv, dec_v, enc_v, Obj
+from harness.props.c10 import jv, dec_v, enc_v, Obj, apply_copy, has_m_operand, _has_kind
 
 PROP = 'C09'
 LEAN_MODULES = ['Glom.Props.C09']
@@ -20,50 +20,92 @@ MANIFEST = dict(
     text="Lean 4 theorems, for every pattern tree of any depth and every target: the code-shaped model of "
          "_glom_match / match-mode _handle_dict / Optional / Required / _precedence / Regex / Match.glomit "
          "(+ every combinator a pattern may contain) refines the documented reading: a match passes exactly "
-         "on conforming targets (types by isinstance, list/set/frozenset items against some alternative, "
-         "tuples positionally, dict entries claimed by the first spec key in spec order, equality keys "
-         "required unless Optional, others optional unless Required, callables by truthiness, the rest by "
-         "==) [sound + complete, for fault-free evaluations], returns the target plus Optional defaults "
-         "(structurally the target itself for default-free patterns on well-formed targets), rejects with a "
-         "MatchError (TypeMatchError ∧ TypeError for a failed type rule), Match(default=) returns arg_val of "
-         "the default instead, matches()/verify() agree, and no statement of the matching code writes to an "
-         "object it did not allocate (facts obligation on the extracted mutation sites). Tied to the code by "
-         "differential execution through the compiled Lean driver with the same checker.",
+         "on conforming targets (types by isinstance - as it is at that call, whatever the metaclass of the "
+         "type and whether or not its __instancecheck__ looks at the instance -, list/set/frozenset items "
+         "against some alternative, tuples positionally, dict entries claimed by the first spec key in spec "
+         "order, equality keys required unless Optional, others optional unless Required, callables by "
+         "truthiness, the rest by ==) [sound + complete; exactly `conforms`, with no escape clause, on calm "
+         "pattern/target pairs - a decidable condition under which no comparison can raise], returns the "
+         "target plus Optional defaults (structurally the target itself for default-free patterns on "
+         "well-formed targets), rejects with a MatchError (TypeMatchError ∧ TypeError for a failed type "
+         "rule), Match(default=) returns arg_val of the default instead, matches()/verify() agree, Regex "
+         "accepts exactly the language of its pattern, the `required` set and `_precedence` are the documented "
+         "rule for every kind of key (the model's precedence solves the equation the extracted if-chain "
+         "denotes), no statement of the matching code writes to an object it did not allocate (facts "
+         "obligation on the extracted mutation sites); HISTORIES: one Match object applied to any sequence "
+         "of targets with abc.register() calls in between decides every call by the type relation of that "
+         "moment; COPIES: a pattern that went through copy.copy / copy.deepcopy / a pickle round trip decides "
+         "like the original (facts obligation: the identity-compared markers _MISSING / RAISE survive each "
+         "way of copying). Tied to the code by differential execution through the compiled Lean driver with "
+         "the same checker.",
     note="trusted: Lean kernel + {propext, Classical.choice, Quot.sound}; extractor (branch order of _glom_match "
-         "and _glom, _precedence, the required/defaults comprehensions, raise/except sites, mutation sites); "
-         "harness/driver; Python's ==, isinstance, hashing/set construction and `re` on a small catalogue of "
-         "patterns as modelled (validated by the correspondence, not proved); set / frozenset iteration order "
-         "is taken from CPython (the harness ships the order it observed); user callables from a finite "
-         "catalogue; Regex group capture and chain_child scope effects belong to C07. Hypothesis of the "
-         "two-valued reading: Optional defaults are plain values (a T default that cannot be evaluated ends "
-         "the match in its PathAccessError).",
+         "and _glom, _precedence, the required/defaults comprehensions, raise/except sites, mutation sites, "
+         "identity markers by import-time introspection, ABC membership of the builtin classes); "
+         "harness/driver; Python's ==, isinstance (class table + attribute test of the two instance-dependent "
+         "catalogue types), hashing/set construction as modelled (validated by the correspondence, not "
+         "proved); CPython's `re` agreeing with the declared language on the catalogue patterns (validated "
+         "per case); set / frozenset iteration order is taken from CPython (the harness ships the order it "
+         "observed); user callables from a finite catalogue; Regex group capture and chain_child scope effects "
+         "belong to C07. Hypothesis of the two-valued reading: Optional defaults are plain values (a T default "
+         "that cannot be evaluated ends the match in its PathAccessError). GATED (GATE_DEEPCOPY_M in "
+         "harness/props/c10.py): deep copies / pickle round trips of patterns with an `M` operand - genuine "
+         "glom defect, `copy.deepcopy(M > 3)` accepts every target.",
     technique='Lean 4 refinement proof (code-shaped matcher = documented conformance relation) + facts obligations '
-              'by decide + differential correspondence',
+              'by decide + differential correspondence (single calls, call sequences, histories with '
+              'abc.register, copied patterns)',
     ref='DESIGN.md §3 C09')
 RULE = ('type-directed: a pattern of depth <= 4 (quick) / 5 (thorough) over {literal, type, list, set, frozenset, '
         'tuple, dict with literal / type / Optional(+default) / Required / compound (tuple, And, Regex) keys, Regex, '
-        'callables, And / Or / Not, M comparisons, nested Match(default=), occasionally a T access} is generated first; a conforming target '
+        'callables, And / Or / Not, M comparisons, nested Match(default=), occasionally a T access} is generated first; '
+        'TYPE atoms are drawn from the builtin concrete classes, classes whose metaclass is not `type` (18 '
+        'collections.abc / numbers ABCs, an Enum, an IntEnum, a class with a custom metaclass, a user ABC) and two '
+        'instance-dependent types (a runtime_checkable Protocol with a data member, a metaclass __instancecheck__ '
+        'looking at an instance attribute), at every position incl. dict keys; targets include instances of '
+        'per-case user classes with / without the attribute; a conforming target '
         'is DERIVED from the pattern (witness per leaf, required keys present, optional keys sometimes), then a '
         'one-edit mutation stream produces near misses (scalar of another type or an == value of another type, a '
         'longer string, dropped / extra / renamed dict key, extra / missing list item, tuple length, list<->tuple, '
         'set<->frozenset at a random position), plus unrelated pool '
         'targets; Match(default=) on a fraction; every pattern is ALSO evaluated as ONE Match object on all '
-        'its targets in consecutive glom calls, each call judged against its own target. non-trivial = the pattern has a container or combinator node; '
-        'distinct = distinct (pattern, default, target)')
+        'its targets in consecutive glom calls, each call judged against its own target; HISTORIES: one Match object, '
+        'calls on instances of a few per-case classes (subclass chains) interleaved with abc.register(cls) calls - '
+        'every target is matched before and after the registrations; COPIES: a fraction of all cases uses '
+        'copy.copy / copy.deepcopy / pickle round trip of the Match object instead of the object; the corpus holds '
+        'the full type-atom x pool-value truth table. non-trivial = the pattern has a container or combinator node; '
+        'distinct = distinct (pattern, default, target | targets | history, copy)')
 TRUSTED = base.TRUSTED + ['set / frozenset iteration order as observed in the same process (shipped to the model)',
                           '`re` on the catalogue patterns (sequences of [a-z], \\d, [^@], ., literal chars, each '
-                          'once or +) with fullmatch / search / match; ASCII targets']
+                          'once or +) with fullmatch / search / match agrees with the declared language ReLang '
+                          '(the model engine = ReLang is proved: c09_regex); ASCII targets',
+                          'isinstance on the catalogue: class rows (real MRO + stdlib ABCs, generated by '
+                          'introspection for the builtins), abc.register as registerCls, the attribute test of '
+                          'HasLabel / Flagged']
 ASSUMPTIONS = ['default registry; MODE handling of Match is C08\'s subject; Regex groups / chain_child scope '
                'effects are not observed here (C07)',
                'glom() re-raises every Exception as a GlomError (C04) - used only for matches() on faults']
 
 LITS = [1, 0, 'a', 'b', None, True, 2.0, -1, 'abc', '', 7]
-TYPE_NAMES = ['int', 'str', 'bool', 'float', 'object', 'list', 'dict', 'tuple', 'NoneType', 'set', 'frozenset']
+O = lambda tag: dec_v({'obj': tag})
+CONCRETE_TYPE_NAMES = ['int', 'str', 'bool', 'float', 'object', 'list', 'dict', 'tuple', 'NoneType', 'set',
+                       'frozenset']
+# + classes whose metaclass is not `type` (ABCs, Enum / IntEnum, a custom metaclass) and types whose
+# __instancecheck__ looks at the instance (runtime_checkable Protocol, custom metaclass)
+TYPE_NAMES = CONCRETE_TYPE_NAMES * 2 + base.META_TYPE_NAMES + base.INSTANCE_DEPENDENT * 2
 SAMPLES = {'int': [3, 0, -2, True], 'str': ['x', 'ab', ''], 'bool': [True, False], 'float': [1.5, 0.0],
            'object': [None, 4, 'o', (1,), [2]], 'list': [[], [1]], 'dict': [{}, {'q': 1}], 'tuple': [(), (1,)],
-           'NoneType': [None], 'set': [{1}, set()], 'frozenset': [frozenset({1}), frozenset()]}
+           'NoneType': [None], 'set': [{1}, set()], 'frozenset': [frozenset({1}), frozenset()],
+           'Hashable': [1, 'a', None, (), O('Rec#h')], 'Sized': [[], 'x', {}, (1,)], 'Iterable': [[1], 'x', {}],
+           'Container': [[1], 'x'], 'Collection': [[1], {1}, ()], 'Reversible': [[1], 'ab', {}],
+           'Sequence': [[1], (), 'ab'], 'MutableSequence': [[1], []], 'Mapping': [{}, {'q': 1}],
+           'MutableMapping': [{}, {'q': 1}], 'Set': [{1}, frozenset()], 'MutableSet': [{1}, set()],
+           'Callable': [], 'Number': [1, 2.5, True], 'Complex': [1, 2.5], 'Real': [1, 2.5, False],
+           'Rational': [3, True], 'Integral': [3, True, 0],
+           'Color': [O('Color#RED'), O('Color#BLUE')], 'Level': [], 'Tagged': [O('Tagged#t1')], 'A0': [],
+           'HasLabel': [O('Rec#a+label'), O('Rec#c+label+flag'), O('K0#n+label')],
+           'Flagged': [O('Rec#f+flag'), O('Rec#c+label+flag')]}
 POOL = [None, True, 0, 1, -1, 2.5, 'a', 'zz', '', [], [1, 'a'], (1,), (), {'a': 1}, {}, {1, 2}, frozenset({1}),
-        [[1]], {'a': {'b': 2}}, Obj('o1')]
+        [[1]], {'a': {'b': 2}}, Obj('o1'), O('Rec#b'), O('Rec#a+label'), O('Rec#f+flag'), O('Color#RED'),
+        O('Tagged#t1'), 'red', 2]
 PRED_WITNESS = {'is_pos': 3, 'is_str': 'x', 'always': 5, 'truthy': 1, 'len_lt3': 'ab', 'echo': 1, 'ret_one': 0,
                 'never': 1, 'ret_none': 1, 'raises_value': 1, 'ret_zero': 2}
 
@@ -88,9 +130,12 @@ def hashable_spec(j):
 
 
 class PGen:
-    def __init__(self, rng):
+    def __init__(self, rng, type_names=None, samples=None, pool=None):
         self.rng = rng
         self.pid = 0
+        self.type_names = type_names or TYPE_NAMES
+        self.samples = samples or SAMPLES
+        self.pool = pool or POOL
 
     def fresh(self):
         self.pid += 1
@@ -102,7 +147,7 @@ class PGen:
         if p < 0.28:
             return {'k': 'lit', 'v': jv(r.choice(LITS))}
         if p < 0.6:
-            return {'k': 'ty', 'n': r.choice(TYPE_NAMES)}
+            return {'k': 'ty', 'n': r.choice(self.type_names)}
         if p < 0.7:
             return {'k': 'pred', 'id': self.fresh(),
                     'fn': r.choice(['is_pos', 'is_str', 'always', 'truthy', 'len_lt3', 'echo', 'never',
@@ -148,10 +193,10 @@ class PGen:
         if k == 'dict':
             return self.dict_pattern(depth)
         if k == 'and':
-            t = r.choice(['int', 'str', 'object', 'float'])
+            t = r.choice(['int', 'str', 'object', 'float', 'Integral', 'Sized', 'Hashable', 'Real'])
             cs = [{'k': 'ty', 'n': t}]
             for _ in range(r.choice([1, 1, 2])):
-                if t == 'str':
+                if t in ('str', 'Sized'):
                     cs.append(r.choice([self.regex(), {'k': 'mexpr', 'l': {'m': True}, 'op': 'ne', 'r': {'c': jv('zz')}},
                                         {'k': 'pred', 'id': self.fresh(), 'fn': 'len_lt3'}]))
                 else:
@@ -193,7 +238,8 @@ class PGen:
                 used.append(k)
                 es.append(['plain', {'k': 'lit', 'v': jv(k)}, val])
             elif p < 0.55:
-                tn = r.choice(['str', 'int', 'object'])
+                tn = r.choice(['str', 'int', 'object', 'str', 'int', 'object', 'Hashable', 'Sized', 'Integral',
+                               'Sequence', 'HasLabel', 'Color'])
                 if ('ty', tn) in used:
                     continue
                 used.append(('ty', tn))
@@ -211,7 +257,8 @@ class PGen:
                     d = {'t': [{'s': r.choice(['a', 'zz'])}]}
                 es.append([{'opt': d}, {'k': 'lit', 'v': jv(k)}, val])
             elif p < 0.82:
-                ks = r.choice([{'k': 'ty', 'n': 'str'}, {'k': 'ty', 'n': 'int'},
+                ks = r.choice([{'k': 'ty', 'n': 'str'}, {'k': 'ty', 'n': 'int'}, {'k': 'ty', 'n': 'Integral'},
+                               {'k': 'ty', 'n': 'Flagged'},
                                {'k': 'and', 'cs': [{'k': 'ty', 'n': 'str'},
                                                    {'k': 'mexpr', 'l': {'m': True}, 'op': 'ne', 'r': {'c': jv('zz')}}],
                                 'd': None},
@@ -267,7 +314,9 @@ class PGen:
         if k == 'lit':
             return dec_v(j['v'])
         if k == 'ty':
-            return copy.deepcopy(r.choice(SAMPLES[j['n']]))
+            if not self.samples.get(j['n']):
+                raise NoWitness(j['n'])
+            return copy.deepcopy(r.choice(self.samples[j['n']]))
         if k == 'pred':
             return PRED_WITNESS.get(j['fn'], 1)
         if k == 'regex':
@@ -330,7 +379,7 @@ class PGen:
         if k == 'or':
             return self.conforming(r.choice(j['cs']))
         if k == 'not':
-            return copy.deepcopy(r.choice(POOL))
+            return copy.deepcopy(r.choice(self.pool))
         if k == 'match':
             return self.conforming(j['s'])
         raise NoWitness(k)
@@ -464,49 +513,60 @@ def enc_sorted(j):
 
 
 # ------------------------------------------------------------------ building specs (with observed set order)
-def build2(j):
-    """(python spec object, spec json with set / frozenset members in the order CPython iterates them)"""
+def build3(j):
+    """(python spec object, fin) - `fin(res)` gives the spec json with set / frozenset members in the
+    order CPython iterates them IN THE OBJECT THAT IS USED: `res(o)` maps an object built here to the
+    object standing for it there (identity, or the memo of the copy.deepcopy that was applied)"""
     from glom import And, Or, Not, Switch, Match, Optional, Required
     k = j['k']
     if k in ('and', 'or'):
-        parts = [build2(c) for c in j['cs']]
+        parts = [build3(c) for c in j['cs']]
         cls = And if k == 'and' else Or
         objs = [p[0] for p in parts]
         o = cls(*objs, default=base.build_arg(j['d'])) if j.get('d') is not None else cls(*objs)
-        return o, dict(j, cs=[p[1] for p in parts])
+        return o, lambda res: dict(j, cs=[p[1](res) for p in parts])
     if k == 'not':
-        o, b = build2(j['c'])
-        return Not(o), dict(j, c=b)
+        o, b = build3(j['c'])
+        return Not(o), lambda res: dict(j, c=b(res))
     if k == 'switch':
-        cases = [(build2(a), build2(b)) for a, b in j['cases']]
+        cases = [(build3(a), build3(b)) for a, b in j['cases']]
         objs = [(a[0], b[0]) for a, b in cases]
         o = Switch(objs, default=base.build_arg(j['d'])) if j.get('d') is not None else Switch(objs)
-        return o, dict(j, cases=[[a[1], b[1]] for a, b in cases])
+        return o, lambda res: dict(j, cases=[[a[1](res), b[1](res)] for a, b in cases])
     if k == 'match':
-        o, b = build2(j['s'])
+        o, b = build3(j['s'])
         m = Match(o, default=base.build_arg(j['d'])) if j.get('d') is not None else Match(o)
-        return m, dict(j, s=b)
+        return m, lambda res: dict(j, s=b(res))
     if k == 'list':
-        parts = [build2(c) for c in j['cs']]
-        return [p[0] for p in parts], dict(j, cs=[p[1] for p in parts])
+        parts = [build3(c) for c in j['cs']]
+        return [p[0] for p in parts], lambda res: dict(j, cs=[p[1](res) for p in parts])
     if k == 'tuple':
-        parts = [build2(c) for c in j['cs']]
-        return tuple(p[0] for p in parts), dict(j, cs=[p[1] for p in parts])
+        parts = [build3(c) for c in j['cs']]
+        return tuple(p[0] for p in parts), lambda res: dict(j, cs=[p[1](res) for p in parts])
     if k in ('set', 'fset'):
-        parts = [build2(c) for c in j['cs']]
+        parts = [build3(c) for c in j['cs']]
         objs = [p[0] for p in parts]
         s = set(objs) if k == 'set' else frozenset(objs)
-        order = []
-        for member in s:
-            idx = next(i for i, o in enumerate(objs) if o is member)
-            order.append(parts[idx][1])
-        return s, dict(j, cs=order)
+
+        def fin(res):
+            order = []
+            used = set()
+            for member in res(s):
+                idx = next((i for i, o in enumerate(objs) if i not in used and res(o) is member), None)
+                if idx is None:
+                    # an atom the copy rebuilt (equal, same type)
+                    idx = next(i for i, o in enumerate(objs)
+                               if i not in used and type(o) is type(member) and o == member)
+                used.add(idx)
+                order.append(parts[idx][1](res))
+            return dict(j, cs=order)
+        return s, fin
     if k == 'dict':
         out = {}
         es = []
         for kind, ks, vs in j['es']:
-            ko, kb = build2(ks)
-            vo, vb = build2(vs)
+            ko, kb = build3(ks)
+            vo, vb = build3(vs)
             if kind == 'req':
                 key = Required(ko)
             elif kind != 'plain':
@@ -517,8 +577,14 @@ def build2(j):
                 raise DuplicateKey()
             out[key] = vo
             es.append([kind, kb, vb])
-        return out, dict(j, es=es)
-    return base.build_spec(j), j
+        return out, lambda res: dict(j, es=[[kind, kb(res), vb(res)] for kind, kb, vb in es])
+    return base.build_spec(j), lambda res: j
+
+
+def build2(j):
+    """(python spec object, spec json with set / frozenset members in the order CPython iterates them)"""
+    o, fin = build3(j)
+    return o, fin(lambda x: x)
 
 
 class DuplicateKey(Exception):
@@ -528,26 +594,51 @@ class DuplicateKey(Exception):
 def run_impl(case):
     import glom
     out = {k: v for k, v in case.items()
-           if not k.startswith('impl') and k not in ('spec_built', 'target_built', 'targets_built')}
+           if not k.startswith('impl') and k not in ('spec_built', 'target_built', 'targets_built', 'hist_built',
+                                                     'copy_used')}
+    base.new_world(case.get('world'))
+    multi = 'targets' in case or 'hist' in case
     try:
-        pobj, built = build2(case['spec'])
+        pobj, fin = build3(case['spec'])
+        m = glom.Match(pobj, default=base.build_arg(case['default'])) if case.get('default') is not None \
+            else glom.Match(pobj)
     except DuplicateKey:
         raise
     except Exception as e:
-        if 'targets' in case:
-            out['impl_seq'] = [{'ctor': type(e).__name__}]
-            out['spec_built'] = None
-            out['targets_built'] = case['targets']
-            return out
-        out['impl'] = {'ctor': type(e).__name__}
         out['spec_built'] = None
-        out['target_built'] = None
+        if 'hist' in case:
+            out['impl_hist'] = [{'ctor': type(e).__name__}]
+            out['hist_built'] = case['hist']
+        elif 'targets' in case:
+            out['impl_seq'] = [{'ctor': type(e).__name__}]
+            out['targets_built'] = case['targets']
+        else:
+            out['impl'] = {'ctor': type(e).__name__}
+            out['target_built'] = None
+        return out
+    # the Match object that is used: the one built, or a copy of it
+    m, res, used = apply_copy(case.get('copy'), m, [case['spec'], case.get('default')])
+    if used is not None:
+        out['copy_used'] = used
+    out['spec_built'] = fin(res)
+    if 'hist' in case:
+        # ONE Match object; calls and `abc.register(cls)` in the order given
+        hb, seq = [], []
+        for st in case['hist']:
+            if 'register' in st:
+                a, k = st['register']
+                base.TYPES[a].register(base.TYPES[k])
+                hb.append(st)
+                seq.append(None)
+            else:
+                t = dec_v(st['call'])
+                hb.append({'call': enc_v(t)})
+                seq.append(base.observe(lambda: glom.glom(t, m)))
+        out['hist_built'] = hb
+        out['impl_hist'] = seq
         return out
     if 'targets' in case:
         # ONE Match object, consecutive calls: each call must decide its own target
-        m = glom.Match(pobj, default=base.build_arg(case['default'])) if case.get('default') is not None \
-            else glom.Match(pobj)
-        out['spec_built'] = built
         tb, seq = [], []
         for tj in case['targets']:
             t = dec_v(tj)
@@ -557,12 +648,7 @@ def run_impl(case):
         out['impl_seq'] = seq
         return out
     target = dec_v(case['target'])
-    out['spec_built'] = built
     out['target_built'] = enc_v(target)
-    if case.get('default') is not None:
-        m = glom.Match(pobj, default=base.build_arg(case['default']))
-    else:
-        m = glom.Match(pobj)
     out['impl'] = base.observe(lambda: glom.glom(target, m))
     out['impl_verify'] = base.observe(lambda: m.verify(target))
     del base.LOG[:]
@@ -578,6 +664,10 @@ def run_impl(case):
 
 
 # ------------------------------------------------------------------ generation
+L = lambda v: {'k': 'lit', 'v': jv(v)}
+T = lambda n: {'k': 'ty', 'n': n}
+
+
 def corpus_cases():
     """fixed cases: the documented examples and the subtle corners"""
     L = lambda v: {'k': 'lit', 'v': jv(v)}
@@ -606,6 +696,138 @@ def corpus_cases():
     for spec, tgt in cases:
         yield {'spec': spec, 'default': None, 'target': jv(tgt)}
         yield {'spec': spec, 'default': {'c': jv('D')}, 'target': jv(tgt)}
+    # the truth table of the type rule: every type atom of the catalogue x every pool value
+    for n in CONCRETE_TYPE_NAMES + base.META_TYPE_NAMES + base.INSTANCE_DEPENDENT + ['K0', 'Rec']:
+        for v in POOL + [O('K0#k'), O('K1#k')]:
+            yield {'spec': T(n), 'default': None, 'target': jv(v), 'world': [['K1', 'K0']]}
+    # two instances of one class, an instance-dependent type: in one call, and in consecutive calls
+    for n, attr in (('HasLabel', 'label'), ('Flagged', 'flag')):
+        a, b = O('Rec#a+' + attr), O('Rec#b')
+        for ts in ([a, b], [b, a], [a, b, a]):
+            yield {'spec': {'k': 'list', 'cs': [T(n)]}, 'default': None, 'target': jv(list(ts))}
+            yield {'spec': T(n), 'default': None, 'targets': [jv(t) for t in ts]}
+    # a class registered as a virtual subclass after a first, failed, match
+    yield {'spec': T('A0'), 'default': None, 'world': [['K1', 'K0']],
+           'hist': [{'call': jv(O('K1#x'))}, {'register': ['A0', 'K0']}, {'call': jv(O('K1#x'))},
+                    {'call': jv(O('K2#y'))}, {'register': ['A0', 'int']}, {'call': jv(True)}, {'call': jv('s')}]}
+    yield {'spec': {'k': 'dict', 'es': [['plain', L('shapes'), {'k': 'list', 'cs': [T('A0')]}]]}, 'default': None,
+           'hist': [{'register': ['A0', 'K0']}, {'call': jv({'shapes': [O('K0#c'), O('K2#s')]})},
+                    {'register': ['A0', 'K2']}, {'call': jv({'shapes': [O('K0#c'), O('K2#s')]})}]}
+    # copies of a pattern decide like the pattern
+    for how in ('copy', 'deepcopy', 'pickle'):
+        for spec, tgt in cases[:12]:
+            yield {'spec': spec, 'default': None, 'target': jv(tgt), 'copy': how}
+        yield {'spec': T('int'), 'default': None, 'target': jv('3'), 'copy': how}
+        yield {'spec': T('int'), 'default': {'c': jv('n/a')}, 'target': jv('3'), 'copy': how}
+        yield {'spec': {'k': 'list', 'cs': [{'k': 'or', 'cs': [T('int'), L('zero')], 'd': None}]}, 'default': None,
+               'target': jv([1, 'zero', 2.5]), 'copy': how}
+        yield {'spec': {'k': 'dict', 'es': [['plain', L('id'), T('int')], [{'opt': None}, L('tags'), T('list')],
+                                            [{'opt': {'c': jv(0)}}, L('lvl'), T('int')]]}, 'default': None,
+               'targets': [jv({'id': 1}), jv({'id': 'x'}), jv({'tags': []})], 'copy': how}
+
+
+HIST_CLASSES = ['K0', 'K1', 'K2', 'Rec', 'int', 'str', 'list']
+
+
+def hist_cases(rng, n, maxd):
+    """ONE Match object; calls on instances of the same few classes - with and without the attribute an
+    instance-dependent type looks at - and `abc.register(cls)` calls in between: a target is matched
+    before and after its class (or a base of it) is registered.  Every call is judged against the
+    type relation of its moment."""
+    for _ in range(n):
+        decl = [['K1', 'K0']] if rng.random() < 0.7 else []
+        regs = []
+        for _ in range(rng.choice([0, 1, 1, 1, 2, 2, 3])):
+            rg = [rng.choice(['A0', 'A0', 'A1']), rng.choice(HIST_CLASSES[:4] * 3 + HIST_CLASSES)]
+            if rg not in regs:
+                regs.append(rg)
+        insts = {'K0': [O('K0#x'), O('K0#n+label'), O('K0#f+flag')], 'K1': [O('K1#x'), O('K1#n+label')],
+                 'K2': [O('K2#x'), O('K2#f+flag')], 'Rec': [O('Rec#b'), O('Rec#a+label'), O('Rec#f+flag')],
+                 'int': [3, True, 0], 'str': ['x', ''], 'list': [[], [1]]}
+        samples = dict(SAMPLES)
+        for a in ('A0', 'A1'):
+            samples[a] = [v for rg in regs if rg[0] == a for v in insts[rg[1]]] + \
+                         ([v for v in insts['K1']] if [a, 'K0'] in regs and decl else [])
+        for kname in ('K0', 'K1', 'K2', 'Rec'):
+            samples[kname] = insts[kname] + (insts['K1'] if kname == 'K0' and decl else [])
+        objs = [v for k in ('K0', 'K1', 'K2', 'Rec') for v in insts[k]]
+        names = ['A0', 'A0', 'A1', 'HasLabel', 'HasLabel', 'Flagged', 'K0', 'K1', 'Rec', 'Hashable', 'object', 'int',
+                 'str', 'Integral', 'Sized', 'Sequence', 'Tagged']
+        g = PGen(rng, type_names=names, samples=samples, pool=POOL + objs)
+        default = {'c': jv('D')} if rng.random() < 0.08 else None
+        targets = []
+        if rng.random() < 0.55:
+            # the history revolves around ONE type atom (an ABC that gets registrations, or an
+            # instance-dependent type) at a chosen position; the targets put every object there
+            focus = T(rng.choice([rg[0] for rg in regs] * 3 + ['HasLabel', 'Flagged', 'A0']))
+            other = g.pattern(rng.choice([0, 0, 1]))
+            shape = rng.choice(['bare', 'list', 'dictval', 'dictkey', 'or', 'tuple', 'not', 'and', 'nested', 'set'])
+            vals = objs + [3, 'x', [1]]
+            rng.shuffle(vals)
+            vals = vals[:rng.choice([4, 6, 8])] + [v for rg in regs if rg[0] == focus['n'] for v in insts[rg[1]][:2]]
+            if shape == 'bare':
+                spec, wrap = focus, lambda o: o
+            elif shape == 'list':
+                spec, wrap = {'k': 'list', 'cs': [focus]}, lambda o: [o, rng.choice(vals)]
+            elif shape == 'dictval':
+                spec, wrap = {'k': 'dict', 'es': [['plain', L('k'), focus]]}, lambda o: {'k': o}
+            elif shape == 'dictkey':
+                spec, wrap = {'k': 'dict', 'es': [['plain', focus, T('int')], ['plain', T('str'), T('str')]]}, \
+                    lambda o: ({o: 1, 'z': 'v'} if base._hashable(o) else {'z': 'v'})
+            elif shape == 'or':
+                spec, wrap = {'k': 'or', 'cs': [focus, other], 'd': None}, lambda o: o
+            elif shape == 'tuple':
+                spec, wrap = {'k': 'tuple', 'cs': [focus, T('object')]}, lambda o: (o, 1)
+            elif shape == 'not':
+                spec, wrap = {'k': 'not', 'c': focus}, lambda o: o
+            elif shape == 'and':
+                spec, wrap = {'k': 'and', 'cs': [T('Hashable'), focus], 'd': None}, lambda o: o
+            elif shape == 'set':
+                spec, wrap = {'k': 'set', 'cs': [focus]}, lambda o: ({o} if base._hashable(o) else set())
+            else:
+                spec, wrap = {'k': 'dict', 'es': [['plain', T('str'), {'k': 'list', 'cs': [focus, T('int')]}]]}, \
+                    lambda o: {'a': [o], 'b': [1, o]}
+            for v in vals:
+                try:
+                    targets.append(jv(wrap(v)))
+                except (base.Unencodable, TypeError):
+                    pass
+        else:
+            spec = g.pattern(rng.choice(list(range(0, maxd))))
+            if not _has_kind(spec, ('ty',)):
+                spec = {'k': 'list', 'cs': [T(rng.choice(names[:6])), spec]} if rng.random() < 0.5 else \
+                    {'k': 'or', 'cs': [T(rng.choice(names[:6])), spec], 'd': None}
+            try:
+                for _ in range(3):
+                    tj = jv(g.conforming(spec))
+                    targets.append(tj)
+                    e = edit(rng, tj)
+                    if valid_v(e):
+                        targets.append(e)
+            except (NoWitness, base.Unencodable, TypeError):
+                pass
+            for _ in range(3):
+                targets.append(jv(rng.choice(objs + [3, 'x', [O('K1#x'), O('Rec#a+label'), O('Rec#b')]])))
+        # every target before the registrations, in between, and afterwards
+        calls = [{'call': t} for t in targets]
+        steps = list(calls)
+        rng.shuffle(steps)
+        for rg in regs:
+            steps.insert(rng.randrange(len(steps) + 1), {'register': rg})
+            more = list(calls)
+            rng.shuffle(more)
+            steps += more[:rng.choice([2, 4, len(more)])]
+        case = {'spec': spec, 'default': default, 'hist': steps[:40]}
+        if decl:
+            case['world'] = decl
+        yield with_copy(rng, case, 0.15)
+
+
+def with_copy(rng, case, p=0.2):
+    """a fraction of the cases uses a copy of the Match object instead of the object itself"""
+    if rng.random() < p:
+        return dict(case, copy=rng.choice(['copy', 'deepcopy', 'deepcopy', 'pickle']))
+    return case
 
 
 def generate(rng, tier, scale, **focus):
@@ -642,12 +864,13 @@ def generate(rng, tier, scale, **focus):
                 continue
             seen.add(s)
             uniq.append(t)
-            yield {'spec': spec, 'default': default, 'target': t}
+            yield with_copy(rng, {'spec': spec, 'default': default, 'target': t})
         if len(uniq) >= 2:
             # the same Match object on all these targets, one call after the other
             ts = list(uniq)
             rng.shuffle(ts)
-            yield {'spec': spec, 'default': default, 'targets': ts}
+            yield with_copy(rng, {'spec': spec, 'default': default, 'targets': ts})
+    yield from hist_cases(rng, (150 if quick else 6000) * scale, maxd)
 
 
 def corpus():
@@ -663,7 +886,8 @@ def corpus():
 
 def key(case):
     return {'spec': case['spec'], 'default': case.get('default'), 'target': case.get('target'),
-            'targets': case.get('targets')}
+            'targets': case.get('targets'), 'hist': case.get('hist'), 'world': case.get('world'),
+            'copy': case.get('copy')}
 
 
 def nontrivial(case, verdict):
@@ -673,7 +897,22 @@ def nontrivial(case, verdict):
 
 def shrink(case):
     b = {k: v for k, v in case.items()
-         if not k.startswith('impl') and k not in ('spec_built', 'target_built', 'targets_built')}
+         if not k.startswith('impl') and k not in ('spec_built', 'target_built', 'targets_built', 'hist_built',
+                                                   'copy_used')}
+    if 'hist' in b:
+        hs = b['hist']
+        for cut in range(1, len(hs)):
+            if 'call' in hs[cut - 1]:
+                yield dict(b, hist=hs[:cut])
+        for i in range(len(hs) - 1, -1, -1):
+            if len(hs) > 1:
+                yield dict(b, hist=hs[:i] + hs[i + 1:])
+    if b.get('copy') is not None:
+        yield {k: v for k, v in b.items() if k != 'copy'}
+        if b['copy'] != 'copy':
+            yield dict(b, copy='copy')
+    if b.get('world'):
+        yield {k: v for k, v in b.items() if k != 'world'}
     if 'targets' in b:
         ts = b['targets']
         for i in range(len(ts)):
